@@ -174,6 +174,16 @@ let handle (f : string list) : string =
   | "seq" :: c :: ht :: steps ->
     let (os, c') = run (parse_htable ht) (List.map parse_step steps) (parse_cache c) in
     String.concat " ; " (List.map (fun (o, n) -> fmt_outcome o ^ " " ^ dec_of_n n) os) ^ " | " ^ fmt_cache c'
+  | "useq" :: urls :: ht :: steps ->   (* a history over several URLs sharing one, initially empty, cache directory *)
+    let us = Array.of_list (List.map dec (String.split_on_char ';' urls)) in
+    let parse_ustep s = match String.split_on_char ';' s with
+      | [i; p; now; e; srv] ->
+        { us_url = us.(int_of_string i);
+          us_step = { st_policy = parse_policy p; st_now = n_of_dec now; st_expected = dec_opt e; st_server = parse_server srv } }
+      | _ -> failwith "ustep" in
+    let (os, d) = run_urls (parse_htable ht) (List.map parse_ustep steps) [] in
+    String.concat " ; " (List.map (fun (o, n) -> fmt_outcome o ^ " " ^ dec_of_n n) os) ^ " | " ^
+    (if d = [] then "!" else String.concat " & " (List.map (fun (_, e) -> fmt_cache (Some e)) d))
   | ["crash"; cp; p; now; c; e; srv; ht] ->
     (match fetch_crash (parse_htable ht) (parse_cp cp) (parse_policy p) (n_of_dec now) (parse_cache c) (dec_opt e) (parse_server srv) with
      | None -> "NOCRASH" | Some c' -> "CRASHED " ^ fmt_cache c')
